@@ -67,6 +67,8 @@ def membrane(spec, mix, path=None):
             exps.append(IdealExperiment(name="%s-%d" % (key, i), temperature=e["T"], component=comp,
                                         permeance=Permeance(value=e["value"], units=e.get("units", KG)),
                                         activation_energy=e.get("Ea")))
+    if spec.get("interleave"):  # experiments listed by temperature, not component by component
+        exps.sort(key=lambda e: (e.temperature, e.name))
     return Membrane(name=spec.get("name", "M"), ideal_experiments=IdealExperiments(experiments=exps), path=path)
 
 
